@@ -292,6 +292,418 @@ Section Indep.
   Proof. intros cs. apply sse_indep. cbn [concat]. rewrite app_nil_r. reflexivity. Qed.
 End Indep.
 
+(* ====================== E. what a sender writes comes back ====================== *)
+Definition clean (l : str) : Prop := forall c, In c l -> is_nl c = false.
+
+Lemma clean_cons : forall c l, clean (c :: l) -> is_nl c = false /\ clean l.
+Proof. intros c l H. split; [apply H; left; reflexivity | intros x Hx; apply H; right; exact Hx]. Qed.
+
+Lemma not_nl_ne : forall c, is_nl c = false -> (c =? 13) = false /\ (c =? 10) = false.
+Proof.
+  intros c H. split.
+  - destruct (c =? 13) eqn:E; [apply N.eqb_eq in E; subst; rewrite is_nl_13 in H; discriminate | reflexivity].
+  - destruct (c =? 10) eqn:E; [apply N.eqb_eq in E; subst; rewrite is_nl_10 in H; discriminate | reflexivity].
+Qed.
+
+Lemma sl_run_clean : forall (l cur : str), clean l -> sl_run (cur, false) l = ((cur ++ l, false), []).
+Proof.
+  induction l as [|c l IH]; intros cur H; cbn [sl_run].
+  - rewrite app_nil_r. reflexivity.
+  - apply clean_cons in H. destruct H as [Hc Hl]. destruct (not_nl_ne c Hc) as [E13 E10].
+    unfold sl_step. rewrite E13, Hc. rewrite (IH _ Hl). rewrite <- app_assoc. reflexivity.
+Qed.
+
+Definition sl_all (st : slstate) (s : str) : list str := let '(st', o) := sl_run st s in o ++ sl_fin st'.
+
+Lemma splitlines_all : forall s, splitlines s = sl_all ([], false) s.
+Proof. reflexivity. Qed.
+
+Lemma sl_all_app : forall a b st, sl_all st (a ++ b) = let '(st1, o1) := sl_run st a in o1 ++ sl_all st1 b.
+Proof.
+  intros a b st. unfold sl_all. rewrite sl_run_app. unfold str, slstate in *.
+  destruct (sl_run st a) as [st1 o1]. destruct (sl_run st1 b) as [st2 o2]. rewrite app_assoc. reflexivity.
+Qed.
+
+(* a pending "\r" followed by anything but "\n" *)
+Lemma cr_pending : forall (r x : str), hd 0 r <> 10 -> sl_all (x, true) r = x :: sl_all ([], false) r.
+Proof.
+  intros r x H. destruct r as [|c r]; [reflexivity|]. cbn [hd] in H.
+  unfold sl_all. cbn [sl_run]. unfold sl_step.
+  assert (E10 : (c =? 10) = false) by (apply N.eqb_neq; exact H). rewrite E10.
+  destruct (c =? 13); [|destruct (is_nl c)]; unfold str, slstate in *; cbn [app];
+    match goal with |- context [sl_run ?st r] => destruct (sl_run st r) as [st2 o2] end; reflexivity.
+Qed.
+
+Definition term_ok (t : term) (r : str) : Prop := t = CRonly -> hd 0 r <> 10.
+
+(* the three equations that define str.splitlines *)
+Lemma splitlines_nil : splitlines [] = [].
+Proof. reflexivity. Qed.
+
+Lemma splitlines_one : forall l, clean l -> l <> [] -> splitlines l = [l].
+Proof.
+  intros l H Hne. unfold splitlines. pose proof (sl_run_clean l [] H) as E. unfold str, slstate in *. rewrite E. cbn [app sl_fin].
+  destruct l; [contradiction | reflexivity].
+Qed.
+
+Lemma sl_all_line : forall t (l r : str), clean l -> term_ok t r ->
+  sl_all ([], false) (l ++ term_s t ++ r) = l :: sl_all ([], false) r.
+Proof.
+  intros t l r H Hok. rewrite sl_all_app.
+  pose proof (sl_run_clean l [] H) as E. unfold str, slstate in *. rewrite E. clear E. cbn [app].
+  destruct t; cbn [term_s app].
+  - unfold sl_all. cbn [sl_run]. unfold sl_step. change (10 =? 13) with false. rewrite is_nl_10.
+    unfold str, slstate in *. destruct (sl_run ([], false) r) as [st2 o2]. reflexivity.
+  - unfold sl_all. cbn [sl_run]. unfold sl_step. change (13 =? 13) with true. change (10 =? 10) with true.
+    unfold str, slstate in *. destruct (sl_run ([], false) r) as [st2 o2]. reflexivity.
+  - pose proof (cr_pending r l (Hok eq_refl)) as E. unfold str, slstate in *. rewrite <- E. clear E. unfold sl_all. cbn [sl_run]. unfold sl_step.
+    change (13 =? 13) with true. unfold str, slstate in *. destruct (sl_run (l, true) r) as [st2 o2]. reflexivity.
+Qed.
+
+Lemma splitlines_line : forall t (l r : str), clean l -> term_ok t r ->
+  splitlines (l ++ term_s t ++ r) = l :: splitlines r.
+Proof. exact sl_all_line. Qed.
+
+Definition all_clean (ls : list str) : Prop := forall l, In l ls -> clean l.
+
+Lemma hd_clean_line : forall (l : str) r, clean l -> hd 0 (l ++ term_s CRonly ++ r) <> 10.
+Proof.
+  intros l r H. destruct l as [|c l]; cbn [app hd].
+  - cbn; discriminate.
+  - apply clean_cons in H. destruct H as [Hc _]. intro E. subst c. rewrite is_nl_10 in Hc. discriminate.
+Qed.
+
+Lemma enc_lines_cons : forall t l ls, enc_lines t (l :: ls) = l ++ term_s t ++ enc_lines t ls.
+Proof. intros. unfold enc_lines. cbn [map concat]. rewrite <- app_assoc. reflexivity. Qed.
+
+Lemma term_ok_enc : forall t ls, all_clean ls -> term_ok t (enc_lines t ls).
+Proof.
+  intros t ls H Ht. subst t. destruct ls as [|l ls]; [cbn; discriminate|].
+  rewrite enc_lines_cons. apply hd_clean_line. apply H. left. reflexivity.
+Qed.
+
+Lemma splitlines_enc_lines : forall t ls, all_clean ls -> splitlines (enc_lines t ls) = ls.
+Proof.
+  induction ls as [|l ls IH]; intros H; [reflexivity|].
+  assert (Hl : clean l) by (apply H; left; reflexivity).
+  assert (Hls : all_clean ls) by (intros x Hx; apply H; right; exact Hx).
+  rewrite enc_lines_cons, splitlines_line by (try exact Hl; apply term_ok_enc; exact Hls).
+  rewrite IH by exact Hls. reflexivity.
+Qed.
+
+Lemma join_cons2 : forall (sep l l2 : str) ls, join sep (l :: l2 :: ls) = l ++ sep ++ join sep (l2 :: ls).
+Proof. intros. unfold join. cbn [map concat]. rewrite <- app_assoc. reflexivity. Qed.
+
+(* lines joined by the terminator, none after the last (non-empty) line *)
+Lemma splitlines_join : forall t ls, all_clean ls -> last ls [0] <> [] ->
+  splitlines (join (term_s t) ls) = ls.
+Proof.
+  induction ls as [|l ls IH]; intros H Hlast; [reflexivity|].
+  assert (Hl : clean l) by (apply H; left; reflexivity).
+  assert (Hls : all_clean ls) by (intros x Hx; apply H; right; exact Hx).
+  destruct ls as [|l2 ls].
+  - cbn [join map concat]. rewrite app_nil_r. apply splitlines_one; assumption.
+  - rewrite join_cons2, splitlines_line.
+    + rewrite IH; [reflexivity | exact Hls | exact Hlast].
+    + exact Hl.
+    + intros Ht. subst t. destruct ls as [|l3 ls].
+      * cbn [join map concat]. rewrite app_nil_r. destruct l2 as [|c l2]; [contradiction|].
+        cbn [hd]. assert (Hc : clean (c :: l2)) by (apply Hls; left; reflexivity).
+        apply clean_cons in Hc. destruct Hc as [Hc _]. intro E; subst c. rewrite is_nl_10 in Hc. discriminate.
+      * rewrite join_cons2. apply hd_clean_line. apply Hls. left. reflexivity.
+Qed.
+
+Section Round.
+  Variable py_int : str -> option Z.
+  Hypothesis py_int_digits :
+    forall ds, ds <> [] -> forallb is_digit ds = true -> py_int ds = Some (digits_val ds).
+
+  Definition acc_item (acc : pacc) (it : item) : pacc :=
+    let '(d, e, i, r) := acc in
+    match it with
+    | IComment _ => acc
+    | IData s => (d ++ [s], e, i, r)
+    | IEvent s => (d, Some s, i, r)
+    | IId s => (d, e, Some s, r)
+    | IRetry s => (d, e, i, Some (digits_val s))
+    end.
+
+  Definition item_ok (it : item) : Prop :=
+    item_dom it = true /\
+    match it with IComment _ => True | _ => no_lead_ws (item_text it) = true end.
+
+  Lemma lstrip_sp : forall s, no_lead_ws s = true -> lstrip s = s.
+  Proof.
+    intros s H.
+    destruct s as [|c s]; [reflexivity|]. cbn [no_lead_ws lstrip] in *.
+    destruct (is_ws c); [discriminate | reflexivity].
+  Qed.
+
+  Lemma pe_step_item : forall acc it, item_ok it -> pe_step py_int acc (item_line it) = acc_item acc it.
+  Proof.
+    intros [[[d e] i] r] it [Hdom Hws]. destruct it as [s|s|s|s|s]; cbn [item_line item_text] in *.
+    - unfold pe_step. rewrite N.eqb_refl. reflexivity.
+    - unfold pe_step. cbn. rewrite (lstrip_sp s Hws). reflexivity.
+    - unfold pe_step. cbn. rewrite (lstrip_sp s Hws). reflexivity.
+    - unfold pe_step. cbn. rewrite (lstrip_sp s Hws). reflexivity.
+    - unfold pe_step. cbn. rewrite (lstrip_sp s Hws).
+      unfold item_dom in Hdom. cbn [item_text] in Hdom.
+      apply andb_true_iff in Hdom. destruct Hdom as [_ Hd]. apply andb_true_iff in Hd. destruct Hd as [Hne Hdig].
+      rewrite py_int_digits; [reflexivity | destruct s; [discriminate | discriminate] | exact Hdig].
+  Qed.
+
+  Lemma fold_pe_items : forall b acc, (forall it, In it b -> item_ok it) ->
+    fold_left (pe_step py_int) (map item_line b) acc = fold_left acc_item b acc.
+  Proof.
+    induction b as [|it b IH]; intros acc H; [reflexivity|]. cbn [map fold_left].
+    rewrite pe_step_item by (apply H; left; reflexivity). apply IH. intros x Hx. apply H. right. exact Hx.
+  Qed.
+
+  Definition upd {A} (f : item -> option A) (acc : option A) (it : item) : option A :=
+    match f it with Some x => Some x | None => acc end.
+  Definition f_ev (it : item) := match it with IEvent s => Some s | _ => None end.
+  Definition f_id' (it : item) := match it with IId s => Some s | _ => None end.
+  Definition f_rt (it : item) := match it with IRetry s => Some (digits_val s) | _ => None end.
+  Definition f_dt (it : item) : list str := match it with IData s => [s] | _ => [] end.
+
+  Lemma fold_acc_items : forall b d e i r,
+    fold_left acc_item b (d, e, i, r) =
+    (d ++ flat_map f_dt b, fold_left (upd f_ev) b e, fold_left (upd f_id') b i, fold_left (upd f_rt) b r).
+  Proof.
+    induction b as [|it b IH]; intros d e i r; cbn [fold_left flat_map].
+    - rewrite app_nil_r. reflexivity.
+    - destruct it as [s|s|s|s|s]; cbn [acc_item]; rewrite IH; cbn [f_dt upd f_ev f_id' f_rt app];
+        rewrite <- ?app_assoc; reflexivity.
+  Qed.
+
+  Lemma parse_items : forall b, (forall it, In it b -> item_ok it) ->
+    parse_event py_int (map item_line b) = expected b.
+  Proof.
+    intros b H. unfold parse_event. rewrite fold_pe_items by exact H. rewrite fold_acc_items. reflexivity.
+  Qed.
+
+  (* ---- the dispatch loop over the lines of whole blocks ---- *)
+  Lemma item_line_cons : forall it, exists c l, item_line it = c :: l.
+  Proof. destruct it; cbn; eexists; eexists; reflexivity. Qed.
+
+  Lemma sse_loop_items : forall b ev rest,
+    sse_loop py_int ev (map item_line b ++ rest) = sse_loop py_int (ev ++ map item_line b) rest.
+  Proof.
+    induction b as [|it b IH]; intros ev rest; cbn [map app].
+    - rewrite app_nil_r. reflexivity.
+    - destruct (item_line_cons it) as [c [l E]]. rewrite E. cbn [sse_loop]. rewrite <- E.
+      rewrite IH. rewrite <- app_assoc. reflexivity.
+  Qed.
+
+  Definition pe (b : block) : event := parse_event py_int (map item_line b).
+
+  Lemma sse_block : forall b rest, b <> [] ->
+    sse_loop py_int [] (block_lines b ++ rest) = pe b :: sse_loop py_int [] rest.
+  Proof.
+    intros b rest Hne. unfold block_lines. rewrite <- app_assoc, sse_loop_items. cbn [app sse_loop].
+    destruct b as [|it b]; [contradiction|]. cbn [map]. reflexivity.
+  Qed.
+
+  Lemma sse_stream : forall bs rest, (forall b, In b bs -> b <> []) ->
+    sse_loop py_int [] (stream_lines bs ++ rest) = map pe bs ++ sse_loop py_int [] rest.
+  Proof.
+    induction bs as [|b bs IH]; intros rest H; [reflexivity|].
+    unfold stream_lines in *. cbn [map concat]. rewrite <- app_assoc, sse_block by (apply H; left; reflexivity).
+    rewrite IH by (intros x Hx; apply H; right; exact Hx). reflexivity.
+  Qed.
+
+  Lemma sse_last_block : forall b, b <> [] -> sse_loop py_int [] (map item_line b) = [pe b].
+  Proof.
+    intros b Hne. rewrite <- (app_nil_r (map item_line b)), sse_loop_items. cbn [app sse_loop].
+    destruct b; [contradiction | reflexivity].
+  Qed.
+
+  (* ---- the guards give what the lemmas above need ---- *)
+  Definition good_item (it : item) : bool :=
+    item_dom it && forallb (fun c => negb (exotic_nl c)) (item_text it)
+    && match it with IComment _ => true | _ => no_lead_ws (item_text it) end.
+  Definition good_block (b : block) : bool := nonemptyb b && forallb good_item b.
+
+  Lemma guard_blocks : forall bs, guard bs = true -> forall b, In b bs -> good_block b = true.
+  Proof.
+    intros bs H b Hb. unfold guard in H. apply andb_true_iff in H. destruct H as [H Hb'].
+    apply andb_true_iff in H. destruct H as [Hd Ha].
+    unfold guard_dom in Hd. unfold guard_F18a in Ha. unfold guard_F18b in Hb'.
+    rewrite forallb_forall in Hd, Ha, Hb'. specialize (Hd b Hb). specialize (Ha b Hb). specialize (Hb' b Hb).
+    apply andb_true_iff in Hd. destruct Hd as [Hne Hd].
+    unfold good_block. rewrite Hne. cbn [andb]. apply forallb_forall. intros it Hit.
+    rewrite forallb_forall in Hd, Ha, Hb'. unfold good_item.
+    rewrite (Hd it Hit), (Ha it Hit). cbn [andb]. specialize (Hb' it Hit). destruct it; exact Hb'.
+  Qed.
+
+  Lemma good_item_ok : forall it, good_item it = true -> item_ok it.
+  Proof.
+    intros it H. unfold good_item in H. apply andb_true_iff in H. destruct H as [H Hw].
+    apply andb_true_iff in H. destruct H as [Hd _]. split; [exact Hd|]. destruct it; [exact I | exact Hw ..].
+  Qed.
+
+  Lemma good_text_clean : forall it, good_item it = true -> clean (item_text it).
+  Proof.
+    intros it H c Hc. unfold good_item in H. apply andb_true_iff in H. destruct H as [H _].
+    apply andb_true_iff in H. destruct H as [Hd Hx]. unfold item_dom in Hd. apply andb_true_iff in Hd.
+    destruct Hd as [Hcr _]. unfold no_crlf in Hcr. rewrite forallb_forall in Hcr, Hx.
+    specialize (Hcr c Hc). specialize (Hx c Hc). unfold exotic_nl in Hx.
+    destruct (is_nl c); [|reflexivity]. cbn [andb] in Hx. rewrite Hcr in Hx. discriminate.
+  Qed.
+
+  Lemma clean_app : forall a b, clean a -> clean b -> clean (a ++ b).
+  Proof. intros a b Ha Hb c Hc. apply in_app_or in Hc. destruct Hc; [apply Ha | apply Hb]; assumption. Qed.
+
+  Lemma cleanb_clean : forall l, forallb (fun c => negb (is_nl c)) l = true -> clean l.
+  Proof. intros l H c Hc. rewrite forallb_forall in H. specialize (H c Hc). destruct (is_nl c); [discriminate | reflexivity]. Qed.
+
+  Lemma good_line_clean : forall it, good_item it = true -> clean (item_line it).
+  Proof.
+    intros it H. pose proof (good_text_clean it H) as Ht.
+    destruct it as [s|s|s|s|s]; cbn [item_line item_text] in *.
+    - change (c_colon :: s) with ([c_colon] ++ s). apply clean_app; [apply cleanb_clean; reflexivity | exact Ht].
+    - change (f_data ++ c_colon :: 32 :: s) with (f_data ++ [c_colon; 32] ++ s). rewrite app_assoc.
+      apply clean_app; [apply cleanb_clean; reflexivity | exact Ht].
+    - change (f_event ++ c_colon :: 32 :: s) with (f_event ++ [c_colon; 32] ++ s). rewrite app_assoc.
+      apply clean_app; [apply cleanb_clean; reflexivity | exact Ht].
+    - change (f_id ++ c_colon :: 32 :: s) with (f_id ++ [c_colon; 32] ++ s). rewrite app_assoc.
+      apply clean_app; [apply cleanb_clean; reflexivity | exact Ht].
+    - change (f_retry ++ c_colon :: 32 :: s) with (f_retry ++ [c_colon; 32] ++ s). rewrite app_assoc.
+      apply clean_app; [apply cleanb_clean; reflexivity | exact Ht].
+  Qed.
+
+  Lemma clean_nil : clean [].
+  Proof. intros c []. Qed.
+
+  Lemma block_lines_clean : forall b, good_block b = true -> all_clean (map item_line b).
+  Proof.
+    intros b H l Hl. unfold good_block in H. apply andb_true_iff in H. destruct H as [_ H].
+    rewrite forallb_forall in H. apply in_map_iff in Hl. destruct Hl as [it [E Hit]]. subst l.
+    apply good_line_clean. apply H. exact Hit.
+  Qed.
+
+  Lemma all_clean_app : forall a b, all_clean a -> all_clean b -> all_clean (a ++ b).
+  Proof. intros a b Ha Hb l Hl. apply in_app_or in Hl. destruct Hl; [apply Ha | apply Hb]; assumption. Qed.
+
+  Lemma stream_lines_clean : forall bs, (forall b, In b bs -> good_block b = true) -> all_clean (stream_lines bs).
+  Proof.
+    induction bs as [|b bs IH]; intros H; [intros l []|].
+    unfold stream_lines in *. cbn [map concat]. apply all_clean_app.
+    - unfold block_lines. apply all_clean_app; [apply block_lines_clean; apply H; left; reflexivity|].
+      intros l [E|[]]. subst l. exact clean_nil.
+    - apply IH. intros x Hx. apply H. right. exact Hx.
+  Qed.
+
+  Lemma stream_lines_snoc : forall bs b,
+    stream_lines (bs ++ [b]) = (stream_lines bs ++ map item_line b) ++ [[]].
+  Proof.
+    intros bs b. unfold stream_lines. rewrite map_app, concat_app. cbn [map concat]. rewrite app_nil_r.
+    unfold block_lines. rewrite app_assoc. reflexivity.
+  Qed.
+
+  Lemma pe_expected : forall bs, (forall b, In b bs -> good_block b = true) -> map pe bs = map expected bs.
+  Proof.
+    intros bs H. apply map_ext_in. intros b Hb. unfold pe. apply parse_items.
+    intros it Hit. apply good_item_ok. specialize (H b Hb). unfold good_block in H.
+    apply andb_true_iff in H. destruct H as [_ H]. rewrite forallb_forall in H. apply H. exact Hit.
+  Qed.
+
+  Lemma good_nonempty : forall bs, (forall b, In b bs -> good_block b = true) -> forall b, In b bs -> b <> [].
+  Proof. intros bs H b Hb E. specialize (H b Hb). subst b. discriminate. Qed.
+
+  (* Functional half of C18 on the text level: whatever the terminator (LF, CRLF, CR) and however the
+     stream ends (after the blank line, after the last line's terminator, or right after the last line),
+     the events come back: data lines joined by "\n", comments ignored, last event/id/retry win. *)
+  Theorem sse_roundtrip_text : forall t k bs, guard bs = true ->
+    sse_of_lines py_int (splitlines (encode t k bs)) = map expected bs.
+  Proof.
+    intros t k bs G. pose proof (guard_blocks bs G) as HB. unfold sse_of_lines.
+    destruct k; cbn [encode].
+    - rewrite splitlines_enc_lines by (apply stream_lines_clean; exact HB).
+      rewrite <- (app_nil_r (stream_lines bs)), sse_stream by (apply good_nonempty; exact HB).
+      cbn [sse_loop]. rewrite app_nil_r. apply pe_expected. exact HB.
+    - destruct bs as [|b0 bs0] using rev_ind; [reflexivity|]. clear IHbs0.
+      rewrite stream_lines_snoc, removelast_last.
+      assert (HB0 : forall b, In b bs0 -> good_block b = true) by (intros x Hx; apply HB; apply in_or_app; left; exact Hx).
+      assert (Hb0 : good_block b0 = true) by (apply HB; apply in_or_app; right; left; reflexivity).
+      rewrite splitlines_enc_lines
+        by (apply all_clean_app; [apply stream_lines_clean; exact HB0 | apply block_lines_clean; exact Hb0]).
+      rewrite sse_stream by (apply good_nonempty; exact HB0).
+      rewrite sse_last_block by (intro E; subst b0; discriminate).
+      rewrite map_app. cbn [map]. rewrite (pe_expected bs0 HB0). f_equal. f_equal.
+      unfold pe. apply parse_items. intros it Hit. apply good_item_ok.
+      unfold good_block in Hb0. apply andb_true_iff in Hb0. destruct Hb0 as [_ Hb0].
+      rewrite forallb_forall in Hb0. apply Hb0. exact Hit.
+    - destruct bs as [|b0 bs0] using rev_ind; [reflexivity|]. clear IHbs0.
+      rewrite stream_lines_snoc, removelast_last.
+      assert (HB0 : forall b, In b bs0 -> good_block b = true) by (intros x Hx; apply HB; apply in_or_app; left; exact Hx).
+      assert (Hb0 : good_block b0 = true) by (apply HB; apply in_or_app; right; left; reflexivity).
+      assert (Hne : b0 <> []) by (intro E; subst b0; discriminate).
+      rewrite splitlines_join.
+      + rewrite sse_stream by (apply good_nonempty; exact HB0).
+        rewrite sse_last_block by exact Hne.
+        rewrite map_app. cbn [map]. rewrite (pe_expected bs0 HB0). f_equal. f_equal.
+        unfold pe. apply parse_items. intros it Hit. apply good_item_ok.
+        unfold good_block in Hb0. apply andb_true_iff in Hb0. destruct Hb0 as [_ Hb0].
+        rewrite forallb_forall in Hb0. apply Hb0. exact Hit.
+      + apply all_clean_app; [apply stream_lines_clean; exact HB0 | apply block_lines_clean; exact Hb0].
+      + destruct b0 as [|it b0 _] using rev_ind; [contradiction|].
+        rewrite map_app. cbn [map]. rewrite app_assoc, last_last.
+        destruct (item_line_cons it) as [c [l E]]. rewrite E. discriminate.
+  Qed.
+End Round.
+
+(* byte level, any chunking: if the stream is the UTF-8 encoding of what the sender wrote, the events come back *)
+Theorem sse_roundtrip : forall (py_int : str -> option Z),
+  (forall ds, ds <> [] -> forallb is_digit ds = true -> py_int ds = Some (digits_val ds)) ->
+  forall t k bs cs, guard bs = true ->
+  utf8_decode (concat cs) = Some (encode t k bs) ->
+  iter_sse py_int cs = Some (map expected bs) /\
+  iter_sse_events_text py_int cs = Some (filter nonemptyb (map e_data (map expected bs))).
+Proof.
+  intros py_int Hint t k bs cs G H.
+  assert (E : iter_sse py_int cs = Some (map expected bs)).
+  { unfold iter_sse. rewrite aiter_lines_stream, H. cbn [option_map].
+    rewrite (sse_roundtrip_text py_int Hint t k bs G). reflexivity. }
+  split; [exact E|]. unfold iter_sse_events_text. rewrite E. f_equal. unfold events_text. clear E.
+  induction (map expected bs) as [|e es IH]; [reflexivity|]. cbn [filter map].
+  destruct (nonemptyb (e_data e)); cbn [map]; rewrite IH; reflexivity.
+Qed.
+
+(* NDJSON: one record per line, any of the three terminators, records come back in order *)
+Theorem ndjson_roundtrip : forall (J : Type) (jl : str -> option J) (recs : list (str * J)) t cs,
+  all_clean (map fst recs) ->
+  (forall l j, In (l, j) recs -> strip l <> [] /\ jl (strip l) = Some j) ->
+  utf8_decode (concat cs) = Some (enc_lines t (map fst recs)) ->
+  iter_ndjson J jl cs = Some (map snd recs, false).
+Proof.
+  intros J jl recs t cs Hc Hj H. unfold iter_ndjson. rewrite aiter_lines_stream, H. cbn [option_map].
+  rewrite splitlines_enc_lines by exact Hc. f_equal. clear H Hc.
+  induction recs as [|[l j] recs IH]; [reflexivity|]. cbn [map fst snd ndjson_of_lines].
+  destruct (Hj l j (or_introl eq_refl)) as [Hne Hl].
+  destruct (strip l) as [|c s] eqn:E; [contradiction|]. rewrite Hl.
+  rewrite IH by (intros l' j' Hin; apply Hj; right; exact Hin). reflexivity.
+Qed.
+
+(* ---------- non-vacuity ---------- *)
+Definition bs_ok : list block :=
+  [[IComment [32; 104; 105]; IEvent [109; 115; 103]; IData [104; 233; 108; 108; 111]; IData []; IData [8364; 58; 32; 120];
+    IId [52; 50]; IRetry [51; 48; 48; 48]];
+   [IData [128512]]].
+Example guard_nonvacuous : guard bs_ok = true /\ length bs_ok = 2%nat.
+Proof. split; reflexivity. Qed.
+
+(* "data: e-acute" CRLF CRLF cut inside the two-byte character and between CR and LF *)
+Definition cs_ok : list bytes := [[100; 97; 116; 97; 58; 32; 195]; [169; 13]; []; [10; 13]; [10]].
+Example roundtrip_nonvacuous :
+  guard [[IData [233]]] = true /\ utf8_decode (concat cs_ok) = Some (encode CRLF TFull [[IData [233]]]).
+Proof. split; reflexivity. Qed.
+
+Example chunking_matters_in_the_model :   (* the layers below really are chunk-sensitive: state is carried *)
+  aiter_text cs_ok = Some [[100; 97; 116; 97; 58; 32]; [233; 13]; [10; 13]; [10]] /\
+  fst (ld_fold ([], false) [[100; 97; 116; 97; 58; 32]; [233; 13]; [10; 13]; [10]]) = ([], false).
+Proof. split; reflexivity. Qed.
+
 (* ---------- refutations of the functional half on the faithful model ---------- *)
 Definition bs_F18a : list block := [[IData [97; 8232; 98]]].      (* data: a<U+2028>b *)
 Definition bs_F18b : list block := [[IData [32; 120]]].           (* data:  x  (payload " x") *)
